@@ -3,7 +3,7 @@
 From Coq Require Import List Bool Arith String.
 Import ListNotations.
 From Lime Require Import Hs.Types Hs.Server Hs.Monitor Hs.ServerFacts Hs.MonitorFacts Props.HsCommon.
-From Lime Require Import Hs.Client Hs.ClientEnc Hs.ClientEncFacts Hs.Pipelined Hs.Interop Hs.InteropFacts.
+From Lime Require Import Hs.Client Hs.ClientEnc Hs.ClientEncFacts Hs.Pipelined Hs.Interop Hs.InteropFacts Hs.Builder Hs.ClientBuilder Hs.InteropBuilt.
 Open Scope string_scope.
 Open Scope list_scope.
 
@@ -118,3 +118,25 @@ Proof.
   - vm_compute. repeat split; reflexivity.
   - vm_compute. reflexivity.
 Qed.
+
+(* ... and for the configurations the builders make (Models J and K, Hs/InteropBuilt.v): a server built with
+   EnableGuestAuthentication and a client built with GuestAuthentication, resp. EnablePlainAuthentication(f) and
+   PlainAuthentication(password) where f accepts, over TCP with TLS configured at both ends and every other
+   setting left at its default: one session, under tls at both ends. *)
+Theorem C09_built_guest_pair_is_under_tls : forall wire snode fs reg id n,
+  reg id = RNode n -> is_uuid id = true ->
+  let sc := built_server_conf [BGuest; BBuild] (TTcp true) true in
+  let o := built_server_oracle fs [BGuest; BBuild] reg in
+  let cc := built_client [KGuest] (TTcp true) true id in
+  exists cins, consistent wire snode sc o cc cins /\ agree snode (ends_of wire snode sc o cc cins) n "tls".
+Proof. exact guest_pair_establishes_under_tls. Qed.
+Print Assumptions C09_built_guest_pair_is_under_tls.
+
+Theorem C09_built_plain_pair_is_under_tls : forall wire snode fs reg id n f pw,
+  reg id = RNode n -> pw < 1000 -> f_plain fs f id pw 0 = ARole ->
+  let sc := built_server_conf [BPlain f; BBuild] (TTcp true) true in
+  let o := built_server_oracle fs [BPlain f; BBuild] reg in
+  let cc := built_client [KPlain pw] (TTcp true) true id in
+  exists cins, consistent wire snode sc o cc cins /\ agree snode (ends_of wire snode sc o cc cins) n "tls".
+Proof. intros wire snode fs reg id n f pw Hreg. exact (plain_pair_establishes_under_tls wire snode fs reg id n Hreg f pw). Qed.
+Print Assumptions C09_built_plain_pair_is_under_tls.
